@@ -8,6 +8,7 @@ package main
 import (
 	"encoding/json"
 	"fmt"
+	"io"
 	"math/big"
 	"os"
 	"sort"
@@ -41,6 +42,7 @@ type Chain struct {
 	Privs  []*secp256k1.PrivKey
 	InBlk  bool
 	home   string
+	db     dbm.DB
 	// restarted: InitChain ran on a fresh application and its first block has not begun yet
 	restarted bool
 }
@@ -64,10 +66,25 @@ const genesisUnix = 1700000000
 // genesisInitialHeight: the height the next NewChain starts at (genesis.json initial_height); reset to 1 after use
 var genesisInitialHeight int64 = 1
 
+// traceW: when VERIF_TRACE names a file, every store operation of every application object is traced into it
+var traceW *os.File
+
+func tracer() *os.File {
+	if traceW == nil && os.Getenv("VERIF_TRACE") != "" {
+		traceW, _ = os.Create(os.Getenv("VERIF_TRACE"))
+	}
+	return traceW
+}
+
 func NewChain(n int, denoms []string, mut GenesisMutator) *Chain {
 	setBech32()
 	home, _ := os.MkdirTemp("", "verifharness")
-	a := app.NewJackalApp(log.NewNopLogger(), dbm.NewMemDB(), nil, true, map[int64]bool{}, home, 0, app.MakeEncodingConfig(), wasm.EnableAllProposals, app.EmptyBaseAppOptions{}, nil)
+	db := dbm.NewMemDB()
+	var tw io.Writer
+	if t := tracer(); t != nil {
+		tw = t
+	}
+	a := app.NewJackalApp(log.NewNopLogger(), db, tw, true, map[int64]bool{}, home, 0, app.MakeEncodingConfig(), wasm.EnableAllProposals, app.EmptyBaseAppOptions{}, nil)
 	gs := app.NewDefaultGenesisState()
 	cdc := a.AppCodec()
 	// deterministic validator key
@@ -120,7 +137,7 @@ func NewChain(n int, denoms []string, mut GenesisMutator) *Chain {
 	if err != nil {
 		panic(err)
 	}
-	c := &Chain{A: a, H: genesisInitialHeight, T: time.Unix(genesisUnix, 0).UTC(), valSet: valSet, Users: users, Privs: privs, home: home}
+	c := &Chain{A: a, H: genesisInitialHeight, T: time.Unix(genesisUnix, 0).UTC(), valSet: valSet, Users: users, Privs: privs, home: home, db: db}
 	a.InitChain(abci.RequestInitChain{ConsensusParams: app.DefaultConsensusParams, AppStateBytes: stateBytes, Time: c.T, ChainId: "verif-1", InitialHeight: genesisInitialHeight})
 	a.Commit()
 	genesisInitialHeight = 1
@@ -323,7 +340,8 @@ func (c *Chain) RestartInit() (errText string) {
 		return fmt.Sprintf("export height %d, expected %d", exp.Height, c.H+1)
 	}
 	home, _ := os.MkdirTemp("", "verifharness")
-	a := app.NewJackalApp(log.NewNopLogger(), dbm.NewMemDB(), nil, true, map[int64]bool{}, home, 0, app.MakeEncodingConfig(), wasm.EnableAllProposals, app.EmptyBaseAppOptions{}, nil)
+	ndb := dbm.NewMemDB()
+	a := app.NewJackalApp(log.NewNopLogger(), ndb, nil, true, map[int64]bool{}, home, 0, app.MakeEncodingConfig(), wasm.EnableAllProposals, app.EmptyBaseAppOptions{}, nil)
 	var vals []abci.ValidatorUpdate
 	for _, v := range exp.Validators {
 		pk, err := tmenc.PubKeyToProto(v.PubKey)
@@ -334,7 +352,7 @@ func (c *Chain) RestartInit() (errText string) {
 	}
 	a.InitChain(abci.RequestInitChain{ConsensusParams: exp.ConsensusParams, AppStateBytes: exp.AppState, Time: c.T, ChainId: "verif-1", InitialHeight: exp.Height, Validators: vals})
 	os.RemoveAll(c.home)
-	c.A, c.home = a, home
+	c.A, c.home, c.db = a, home, ndb
 	c.InBlk = true // the InitChain state lives in the deliver state until the first block commits
 	c.restarted = true
 	return ""
@@ -346,4 +364,20 @@ func (c *Chain) Restart(dt time.Duration) (errText string, p interface{}) {
 		return e, nil
 	}
 	return "", c.Begin(dt)
+}
+
+// Reopen is a restart of the node *process*: a new application object (fresh keepers, nothing kept
+// in memory) over the same database, loading the last committed state.  Between blocks only.
+func (c *Chain) Reopen() {
+	if c.InBlk {
+		panic("Reopen inside a block")
+	}
+	home, _ := os.MkdirTemp("", "verifharness")
+	var tw io.Writer
+	if t := tracer(); t != nil {
+		tw = t
+	}
+	a := app.NewJackalApp(log.NewNopLogger(), c.db, tw, true, map[int64]bool{}, home, 0, app.MakeEncodingConfig(), wasm.EnableAllProposals, app.EmptyBaseAppOptions{}, nil)
+	os.RemoveAll(c.home)
+	c.A, c.home = a, home
 }
